@@ -67,6 +67,7 @@ class RollbackSem(Semantics):
         self.uc = under_construction
         self.failure_returns: list[tuple[ast.Return, Any]] = []
         self.loop_roles: dict[str, str] = {}
+        self.pending: dict[str, str | None] = {}  # local holding the result of R._attach_inner(...) -> role R
         # compensation code inside handlers is assumed not to fail itself (stated assumption)
         self.in_handler = {id(n) for h in ast.walk(f.node) if isinstance(h, ast.ExceptHandler) for st in h.body for n in ast.walk(st)}
 
@@ -133,6 +134,9 @@ class RollbackSem(Semantics):
                 toks |= {("P_CLR", f"kids({r})"), ("R_POP", r)}
             elif last == "detach" and r and r not in self.uc and completed:
                 toks |= {("P_CLR", f"desc({r})"), ("R_POP", r), ("R_POP", f"desc({r})")}
+            elif last == "_attach_inner" and r and completed and self._result_tested(st, c):
+                # the registration happened only if the result is None: decided where the result is tested (cond)
+                pass
             elif last in ("_attach", "_attach_inner") and r and completed:
                 inv = {("R_POP", r), ("R_POP", f"desc({r})"), ("P_CLR", f"desc({r})"), ("P_CLR", f"kids({r})")}
                 if toks & inv:
@@ -150,6 +154,24 @@ class RollbackSem(Semantics):
                     toks.discard(("R_POP", rr))
                 else:
                     toks.add(("R_SET", rr))
+        return toks
+
+    def _result_tested(self, st: ast.stmt, c: ast.Call) -> bool:
+        """``x = R._attach_inner(...)``: remember which role x reports on; the effect is applied where x is compared with None."""
+        if isinstance(st, (ast.Assign, ast.AnnAssign)) and st.value is c:
+            tg = st.targets[0] if isinstance(st, ast.Assign) else st.target
+            if isinstance(tg, ast.Name):
+                self.pending[tg.id] = self.role(c.func.value)  # type: ignore[attr-defined]
+                return True
+        return False
+
+    def _attached(self, toks: set, r: str) -> set:
+        inv = {("R_POP", r), ("R_POP", f"desc({r})"), ("P_CLR", f"desc({r})"), ("P_CLR", f"kids({r})")}
+        toks = set(toks)
+        if toks & inv:
+            toks -= inv
+        elif r not in self.uc:
+            toks.add(("ATTACHED", r))
         return toks
 
     def _facts_assign(self, facts: set, st: ast.stmt) -> set:
@@ -217,7 +239,12 @@ class RollbackSem(Semantics):
             if any(k in fd and fd[k] != v for k, v in at):
                 res.append(())
             else:
-                res.append(((toks, frozenset(set(facts) | set(at))),))
+                t2 = toks
+                for k, v in at:
+                    for name, r in self.pending.items():
+                        if r and k == k_none(name) and v is True:
+                            t2 = frozenset(self._attached(set(t2), r))  # _attach_inner returned None: the node is registered
+                res.append(((t2, frozenset(set(facts) | set(at))),))
         return res[0], res[1]
 
 
